@@ -1332,6 +1332,9 @@ func (e *Env) CommuteCheck(fn *ssa.Function, ct *Contract, c *Clause, maxPaths i
 // function under verification has a clause for one of those properties (assuming less is
 // always sound; it keeps the facts of unrelated properties out of the path conditions).
 func (ex *Exec) relevantClause(c *Clause) bool {
+	if c.Local {
+		return false
+	}
 	if len(c.Tags) == 0 || ex.TopFn == nil {
 		return true
 	}
